@@ -348,8 +348,10 @@ class ResolveListContract(object):
         yield st, dyn(Val.O(la))
 
 
-def node_shape_facts(st, items):
-    """postconditions of the grammar actions (C10) for a list of CommandNodes: quantified over positions"""
+def node_shape_facts(st, items, converted=False):
+    """postconditions of the grammar actions (C10) for a list of CommandNodes: quantified over positions.
+    converted=True: nodes built by convert_eems2_commands (C16): the result name is the node's own name or the *value* of its
+    NewFieldName / InFieldName argument (text is guaranteed by the converter's contract, checked under C16)"""
     k, i = z3.Ints("nk ni")
     nd = Val.ref(items[k])
     args = Val.items(FLD("arguments")(nd))
